@@ -40,7 +40,9 @@ def run(seed=0, per_fn=60, only=None):
     for prop, specs in sorted(tables._specs().items()):
         if only and prop != only:
             continue
-        for fn, name, args, ret, partial in specs:
+        for fn, name, args, ret, partial, *opt in specs:
+            if opt:
+                continue
             try:
                 tr.translate_function(fn, name, args, ret, partial)
             except Exception:
